@@ -82,6 +82,7 @@ type G struct {
 	Passed int // consecutive steps this ready goroutine was passed over
 	Born   uint64
 	User   interface{}
+	Lag    bool // a laggard: when the scheduler picks it, it is usually passed over once more
 }
 
 func (g *G) State() GState { return g.state }
@@ -134,12 +135,19 @@ type LogEntry struct {
 }
 
 type Sim struct {
-	Now       int64
-	Steps     uint64
-	StepCost  int64
-	ContNum   int // P(continue current) = ContNum/ContDen in generation mode
-	ContDen   int
-	FairBound int // if >0: a candidate passed over this many times is forced
+	Now      int64
+	Steps    uint64
+	StepCost int64
+	ContNum  int // P(continue current) = ContNum/ContDen in generation mode
+	ContDen  int
+	// laggards: one goroutine in LagEvery (0: none) is created as a laggard; a laggard that is
+	// picked is passed over with probability LagSkipNum/LagSkipDen. This gives schedules in which
+	// one goroutine falls far behind the others, which uniform choice almost never produces.
+	LagEvery   int
+	LagSkipNum int
+	LagSkipDen int
+	Lags       int
+	FairBound  int // if >0: a candidate passed over this many times is forced
 
 	Tape    *Tape
 	Quiesce func()
@@ -222,6 +230,10 @@ func (s *Sim) newG(name string, nc *NodeCtx, parent *G, site uint32) *G {
 		wake: make(chan struct{}, 1), Born: s.Steps}
 	s.nextG++
 	s.gs = append(s.gs, g)
+	if s.LagEvery > 0 && nc != nil && s.Tape.Chance(StSched, 1, s.LagEvery) {
+		g.Lag = true
+		s.Lags++
+	}
 	return g
 }
 
@@ -235,6 +247,29 @@ func (s *Sim) runG(g *G, fn func()) {
 	}()
 	debug.SetPanicOnFault(true)
 	fn()
+}
+
+// candidateG maps a pick index of step() to the goroutine it denotes (nil for an event).
+func (s *Sim) candidateG(idx int, lastReady bool) *G {
+	if lastReady {
+		if idx == 0 {
+			return s.last
+		}
+		idx--
+	}
+	if idx < len(s.due) {
+		return nil
+	}
+	idx -= len(s.due)
+	for _, g := range s.gs {
+		if s.ready(g) && !(lastReady && g == s.last) {
+			if idx == 0 {
+				return g
+			}
+			idx--
+		}
+	}
+	return nil
 }
 
 // Spawn starts a goroutine from scheduler context (or from a running goroutine).
@@ -534,6 +569,11 @@ func (s *Sim) step() StepResult {
 		pick = 0
 	} else {
 		pick = s.Tape.ChooseBias(StSched, total, s.ContNum, s.ContDen)
+		if s.LagEvery > 0 {
+			if g := s.candidateG(pick, lastReady); g != nil && g.Lag && s.Tape.Chance(StSched, s.LagSkipNum, s.LagSkipDen) {
+				pick = s.Tape.ChooseBias(StSched, total, s.ContNum, s.ContDen)
+			}
+		}
 	}
 	s.Steps++
 
